@@ -2415,6 +2415,12 @@ func (f *c09Fix) sellOffChecks() {
 			}
 			got, found := f.app.LiquidationKeeper.GetLockedVault(cctx, lv.AppId, lv.LockedVaultId)
 			in := []string{bp.AmountIn.Amount.String(), updatedOut.String(), u(t1.Twa), u(t2.Twa), a1.Decimals.String(), a2.Decimals.String(), raw(c), raw(pen), raw(rp.LiquidationBonus)}
+			if !found && uerr != nil && strings.Contains(uerr.Error(), "insufficient funds") {
+				// the pool cannot pay what the (uncapped, D33) sell-off asks for: the bank refuses. The pure function `sellOffV1` does not
+				// see balances; the end-to-end model (`seizeBorrowV1`) has this guard and is compared on every block / message.
+				f.tr.Count("selloff:err-pool-cannot-pay")
+				continue
+			}
 			if !found {
 				f.tr.Count("selloff:err")
 				f.tr.Line("liq.selloff.single", append(in, "0", "0", "0", "0", "0", "0", "0", "err")...)
